@@ -292,6 +292,10 @@ package plush
 //@ ensures arity: len(args) < len(node.Parameters) ==> err != nil
 // C16: the evaluated argument values are held in storage of this call only
 //@ owned vals
+// C09/C16: the body runs in a child scope that this very call created (so nothing it binds can reach
+// the caller's scope), whatever the number of parameters
+//@ ghost child = callresult after New#1
+//@ assert freshscope: calls(New) == 1 && c.ctx == child && callarg1 == node.Block before evalBlockStatement#1
 //@ errprop
 //@ assigns c.ctx, c.curStmt, mapsof("map[string]interface{}"), fresh
 //@ loop 1: invariant callerscope: cctx(c) && c.ctx == old(c.ctx) && len(vals) == len(node.Parameters) && len(args) >= len(node.Parameters) && 0 <= ridx1
@@ -415,6 +419,10 @@ package plush
 //@ func (c *compiler) evalCallExpression
 //@ ensures ufn: is(result, "*userFunction") ==> pay(result) != 0
 //@ requires node != nil
+// C16: the template function invoked is the value the function expression has now, in this scope, and
+// it gets this call's argument expressions
+//@ ghost fnv = callresult after evalExpression#1
+//@ assert callee: node.Callee == nil && is(fnv, "*userFunction") && callarg1 == unbox(fnv, "*userFunction") && callarg2 == node.Arguments before evalUserFunction#1
 // C12: the argument vector is built in storage of this call only (nested calls cannot overwrite it)
 //@ owned args
 // C05/C12: a non-nil trailing error result of the helper fails the call, wrapping that error
@@ -462,6 +470,14 @@ package plush
 //@ assert binditer: view(unbox(c.ctx, "*Context"), box(node.ValueName)) == ii && ii != nil && (node.KeyName != node.ValueName ==> view(unbox(c.ctx, "*Context"), box(node.KeyName)) == box(i__3)) before evalBlockStatement#1
 //@ loop 4: invariant kept: calls(evalBlockStatement) == prev(calls(evalBlockStatement)) + 1 ==> kept(lastres, ret, prev(ret))
 // maps: the entry bound is the entry of the key at hand
+// C09: the body is evaluated in the child scope this loop created (loop variables and lets of the body
+// cannot reach the enclosing scope)
+//@ ghost child = callresult after New#1
+//@ assert bodyscope: calls(New) == 1 && c.ctx == child && is(child, "*Context") && unbox(child, "*Context").outer == octx && callarg1 == node.Block before evalBlockStatement#1
+//@ loop 1: invariant scope: calls(New) == 1 && c.ctx == child
+//@ loop 2: invariant scope: calls(New) == 1 && c.ctx == child
+//@ loop 3: invariant scope: calls(New) == 1 && c.ctx == child
+//@ loop 4: invariant scope: calls(New) == 1 && c.ctx == child
 //@ assert bindmap: view(unbox(c.ctx, "*Context"), box(node.ValueName)) == rvIface(rvMapIndex(riter, keys[i__1])) && (node.KeyName != node.ValueName ==> view(unbox(c.ctx, "*Context"), box(node.KeyName)) == rvIface(keys[i__1])) before evalBlockStatement#1
 //@ loop 2: invariant kept: calls(evalBlockStatement) == prev(calls(evalBlockStatement)) + 1 ==> kept(lastres, ret, prev(ret))
 // break: what the breaking iteration produced is kept and the loop ends; an error discards everything
@@ -645,6 +661,8 @@ package plush
 
 //@ func PartialHelper
 //@ requires pkginit()
+// C17/C13: the data handed to a partial is the caller's value: it is read, never written
+//@ readonly data
 // C17: the named partial's text is fetched once and rendered once, in a child of the caller's scope
 // created by this call; without layout / javascript escaping the result is exactly that rendering; with
 // a layout the rendering is handed to the layout partial as (unescaped) yield and the layout's result is
